@@ -54,6 +54,10 @@ CLAIMED = {
     text="Inventories every abort site (MIR Assert terminators, panicking entry points, unwrap/expect, and a table of may-panic APIs: indexing/slicing, byteorder reads, pnet payload fills) in all functions reachable from reply() - log-macro arguments and both Logger impls included, so code that only runs at higher verbosity is covered - and discharges each by a structural rule: constant conditions; unwrap origin typing (established ClientInfo field via an interprocedural must-set typestate, total packet constructors whose buffer contains minimum_packet_size as an additive term, masked conversions, constant inputs, environment-only failures; a fallible parser result is a violation); guard dominance with no intervening write for bounds, cursors (variable based), x-1, and constant ranges under len tests; type-range and allocation-size arithmetic; match-arm pinning by evaluating the arm's values; counter fields. Whatever is left must appear in the reviewed inventory rules/c01_vetted.json (keys without line numbers, one reason each); a site neither discharged nor vetted is a violation. Also: no lock re-entry from the get_tcb callback. Thorough tier repeats the analysis on release MIR (overflow checks off).",
     note="About a quarter of the sites (parser-state / automaton-table invariants, size bounds that rest on the 4096-byte capture buffer) are assumed by review, not proved; the evidence separates discharged_by_rule from assumed_by_review. Loop termination, panics inside std/dependencies on valid arguments and environment failures (stdout closed, clock before 1970, OOM) are not decided.",
     technique="abort-site inventory over the call-graph cone + guard-dominance / typestate / range discharge rules on MIR + reviewed residual", ref="§4 C01"),
+ 'C13': dict(
+    text="(R1) http::repl returns a response only behind state == CONTENT, tested after http_parse consumed the whole segment; (R2) the request parser is extracted from MIR as a finite automaton by evaluating the loop body for every reachable state and all 256 byte values (14 states x 256 = 3584 transitions): every transition is decided, only the current byte is read (pure fold), FAIL and CONTENT are absorbing; (R5) language-level decision on the product of that automaton with two reference automata written from the statement: every request of the grammar (target, HTTP/d+.d+, CRLF or bare LF, name:value lines, empty line) reaches CONTENT, and nothing outside the most lenient reading of request-line/header-line/empty-line does - so malformed or unterminated requests are never answered, for all byte strings; (R3) the response template starts with HTTP/1.1 401, has WWW-Authenticate, an empty line before the body, Content-Length = len() of exactly the body value, nothing after the body; (R4) HTTP_VERBS has nine entries and feeds both matchers.",
+    note="Not decided: that the run-time compiled method matcher (HTTP_SMACK) accepts exactly the nine methods (the FSM is analysed from the state after the method). std is_ascii_digit is modelled from its documentation.",
+    technique="FSM extraction by exhaustive partial evaluation of MIR + automata inclusion against reference automata + format-template decoding", ref="§4 C13"),
 }
 
 NOT_YET = {}
